@@ -249,7 +249,7 @@ Proof.
   induction cs as [|c t IH]; intros iv n; cbn [cbc64_enc_leak cbc64_dec_leak cbc64_enc cbc64_dec cbc64_trace map].
   - destruct cfb; reflexivity.
   - destruct (Nat.eqb (length c) 8).
-    + autorewrite with leak. rewrite HE, IH. simpl. rewrite <- app_assoc. reflexivity.
+    + autorewrite with leak. rewrite HE, IH. cbn [app]. reflexivity.
     + autorewrite with leak. rewrite (cfb_residue_leak_snd E tE) by exact HE.
       destruct cfb; reflexivity.
 Qed.
@@ -272,7 +272,7 @@ Proof.
   induction cs as [|c t IH]; intros iv n; cbn [cbc64_enc_leak cbc64_dec_leak cbc64_enc cbc64_dec cbc64_trace map].
   - destruct cfb; reflexivity.
   - destruct (Nat.eqb (length c) 8).
-    + autorewrite with leak. rewrite HD, IH. simpl. rewrite <- app_assoc. reflexivity.
+    + autorewrite with leak. rewrite HD, IH. cbn [app]. reflexivity.
     + autorewrite with leak. rewrite (cfb_residue_leak_snd E tE) by exact HE.
       destruct cfb; reflexivity.
 Qed.
@@ -281,10 +281,14 @@ Qed.
 Lemma chunks_fuel_lens : forall fuel (l : bytes),
   map (@length N) (chunks_fuel fuel 8 l) = chunk_lens fuel (length l).
 Proof.
-  induction fuel as [|f IH]; intros l; simpl.
+  induction fuel as [|f IH]; intros l.
   - reflexivity.
   - destruct l as [|a l']; [reflexivity|].
-    cbn [map]. rewrite IH. rewrite skipn_length, firstn_length. reflexivity.
+    change (chunks_fuel (S f) 8 (a :: l'))
+      with (firstn 8 (a :: l') :: chunks_fuel f 8 (skipn 8 (a :: l'))).
+    change (chunk_lens (S f) (length (a :: l')))
+      with (Nat.min 8 (length (a :: l')) :: chunk_lens f (length (a :: l') - 8)).
+    cbn [map]. rewrite IH, skipn_length, firstn_length. reflexivity.
 Qed.
 Lemma chunks_lens : forall l : bytes, map (@length N) (chunks 8 l) = chunk_lens (length l) (length l).
 Proof. intros. apply chunks_fuel_lens. Qed.
